@@ -11,7 +11,7 @@ import vp
 import c07
 
 NAMES = ["detect", "build", "bin", "detect.sh"]
-TOMLS = ["ok", "api09", "api10", "ok-broken-rest", "malformed", "absent", "bpdir-unset", "api-not-string"]
+TOMLS = ["ok", "api09", "api10", "ok-broken-rest", "malformed", "absent", "bpdir-unset", "api-not-string", "api-wraps", "api-wraps-major"]
 PLATFORMS = ["ok", "no-env-dir", "env-is-file", "plan-missing", "plan-malformed"]
 SBOMS = ["cdx", "spdx", "syft"]
 DETECT_BEH = ["pass", "plan", "fail", "err"]
@@ -33,7 +33,9 @@ BUILD_BEH = build_behaviours()
 
 def toml_text(kind):
     return {"ok": phase.BP_TOML_OK, "api09": phase.BP_TOML_OK.replace('"0.10"', '"0.9"'), "api10": phase.BP_TOML_OK.replace('"0.10"', '"1.0"'),
-            "ok-broken-rest": 'api = "0.10"\n\n[buildpack]\nid = "vp/scripted"\n', "malformed": "api = = 0.10\n[[[", "api-not-string": phase.BP_TOML_OK.replace('"0.10"', "0.10")}.get(kind)
+            "ok-broken-rest": 'api = "0.10"\n\n[buildpack]\nid = "vp/scripted"\n', "malformed": "api = = 0.10\n[[[", "api-not-string": phase.BP_TOML_OK.replace('"0.10"', "0.10"),
+            # 2^64 + 10 and 2^64 + 0: a different API version than 0.10, whatever a 64-bit parser makes of it
+            "api-wraps": phase.BP_TOML_OK.replace('"0.10"', '"0.18446744073709551626"'), "api-wraps-major": phase.BP_TOML_OK.replace('"0.10"', '"18446744073709551616.10"')}.get(kind)
 
 
 def launch_spec(r):
@@ -113,7 +115,7 @@ def expectation(cfg):
     """-> dict(reach: bool, status: 'zero'|'hundred'|'error'|'nonzero', on_error: 0|1|None(<=1))"""
     name = cfg["name"]
     right_argc = {"detect": 2, "build": 3}.get(name)
-    if cfg["toml"] in ("api09", "api10", "malformed", "absent", "bpdir-unset", "api-not-string"):
+    if cfg["toml"] in ("api09", "api10", "malformed", "absent", "bpdir-unset", "api-not-string", "api-wraps", "api-wraps-major"):
         return {"reach": False, "status": "nonzero", "on_error": None}
     if name not in ("detect", "build") or cfg["argc"] != right_argc:
         return {"reach": False, "status": "nonzero", "on_error": None}
@@ -147,6 +149,14 @@ def run_cfg(lay, cfg, idx, seed, sh):
     r = vp.rng(seed, "c05", idx)
     prepare(lay, cfg)
     script = make_script(cfg, r, lay)
+    b0 = script.get("build")
+    if cfg["name"] == "build" and cfg["pre"] and idx % 2 == 1 and b0 and b0.get("store") and os.path.isdir(lay.layers) and not cfg.get("unwritable"):
+        # the store left by the previous build is almost what this build returns (0.0 where -0.0 is returned): equal under ==,
+        # another document. The provided store is what has to be on disk afterwards.
+        b0["store_intent"] = dict(b0["store_intent"], zero=-0.0)
+        b0["store"] = tomlw.tagged(b0["store_intent"])
+        with open(os.path.join(lay.layers, "store.toml"), "w") as f:
+            f.write(tomlw.selfcheck({"metadata": dict(b0["store_intent"], zero=0.0)}))
     env = {}
     if cfg["toml"] != "bpdir-unset":
         env["CNB_BUILDPACK_DIR"] = lay.bp
